@@ -147,6 +147,7 @@ void ev(uint32_t kind, int64_t a, int64_t b, int64_t c)
 }
 void fp_mix(uint64_t v) { sh->res.fingerprint = mix64(sh->res.fingerprint ^ v); }
 void set_nontrivial(int v) { sh->res.nontrivial = v; }
+void request_recycle() { sh->res.recycle = 1; }
 
 int counter_id(const char *group, const char *name)
 {
@@ -527,6 +528,7 @@ static int worker_loop(uint64_t base, const char *fpfile, int nsamples)
 			chash = mix64(mix64(chash ^ i) ^ r.ev_hash ^ (uint64_t)r.verdict);
 			steps += r.steps; handoffs += r.handoffs; vt += r.vtime_ns;
 			for (size_t c = 0; c < g_counters.size(); c++) agg[c] += sh->counters[c];
+			if (r.recycle) recycle = true;
 			if (r.verdict == V_OK) ok++;
 			else if (r.verdict == V_INCONCLUSIVE) { inconc++; recycle = true; }
 			else { viol++; recycle = true; result_line("VIOL", i, spec, r); }
